@@ -49,6 +49,16 @@ func (u *Unit) cutLoop(st *State, fr *Frame, b *ssa.BasicBlock, lc *LoopContract
 		u.oblige(st, name, "inv-"+phase, u.invTags(cl), g, cl.Text)
 	}
 	if phase == "preserve" {
+		for _, kc := range lc.Keeps {
+			// len(<expr>): the argument is the kept slice
+			arg := kc.Expr.(*ast.CallExpr).Args[0]
+			cur, ok1 := u.invEnv(st, fr, b).eval(kc, arg).(SliceV)
+			senv := u.invEnv(st, fr, b)
+			senv.st = fr.loopSnap[b]
+			was, ok2 := senv.eval(kc, arg).(SliceV)
+			same := ok1 && ok2 && cur.R == was.R
+			u.oblige(st, fmt.Sprintf("%s#loop%d.keeps:%s", fnKey(u.fn), lc.Ord, kc.Text), "inv-preserve", []string{"support"}, BoolK(same), kc.Text)
+		}
 		if lc.Decreases != nil {
 			env := u.invEnv(st, fr, b)
 			d1 := toInt(env.eval(lc.Decreases, lc.Decreases.Expr).(IntV))
@@ -86,6 +96,12 @@ func (u *Unit) cutLoop(st *State, fr *Frame, b *ssa.BasicBlock, lc *LoopContract
 		a0 := st.alloc
 		st.alloc = Fresh("alloc.loop", SortInt)
 		st.assume(IntLe(a0, st.alloc))
+	}
+	for _, kc := range lc.Keeps {
+		if !u.restoreKept(st, fr, b, kc) {
+			u.specError(fmt.Sprintf("loop %d keeps", lc.Ord), fmt.Errorf("%s is not a local or a field of a local struct", kc.Text))
+			return nil
+		}
 	}
 	for _, cl := range lc.Invariants {
 		if !cl.visible(u.prop) {
@@ -775,4 +791,60 @@ func (u *Unit) loopCallsBack(lc *LoopContract) bool {
 		}
 	}
 	return false
+}
+
+// restoreKept: after the loop havoc, a `keeps` location holds an arbitrary re-slice of the array it held at loop
+// entry (the back edge proves that the body never stores a different array there).
+func (u *Unit) restoreKept(st *State, fr *Frame, b *ssa.BasicBlock, kc *Clause) bool {
+	arg := kc.Expr.(*ast.CallExpr).Args[0]
+	var path []int
+	ex := arg
+	for {
+		if p, ok := ex.(*ast.ParenExpr); ok {
+			ex = p.X
+			continue
+		}
+		sel, ok := ex.(*ast.SelectorExpr)
+		if !ok {
+			break
+		}
+		s := kc.Info.Selections[sel]
+		if s == nil || s.Kind() != types.FieldVal {
+			return false
+		}
+		path = append(append([]int(nil), s.Index()...), path...)
+		ex = sel.X
+	}
+	id, ok := ex.(*ast.Ident)
+	if !ok {
+		return false
+	}
+	env := u.invEnv(st, fr, b)
+	cell, ok := env.cells[kc.Info.Uses[id].Pos()]
+	if !ok {
+		return false
+	}
+	p, ok := fr.regs[cell].(PtrV)
+	if !ok {
+		return false
+	}
+	snap := fr.loopSnap[b]
+	was, ok := getPathSafe(snap.objs[p.Obj], path).(SliceV)
+	if !ok || was.R == nil {
+		return true
+	}
+	name := kc.Text
+	off, ln, cp := Fresh(name+".off", SortInt), Fresh(name+".len", SortInt), Fresh(name+".cap", SortInt)
+	st.assume(And(IntLe(was.Off, off), IntLe(IntK(0), ln), IntLe(ln, cp), Eq(IntAdd(off, cp), IntAdd(was.Off, was.Cap))))
+	st.objs[p.Obj] = setPath(st.objs[p.Obj], path, SliceV{was.R, off, ln, cp})
+	return true
+}
+
+func getPathSafe(v Value, path []int) (res Value) {
+	defer func() {
+		if recover() != nil {
+			res = nil
+		}
+	}()
+	return getPath(v, path)
 }
